@@ -202,7 +202,7 @@ CanRemove(ir, id, toProxy) ==
   IN  /\ ~(Refs(ir, B(id)) # {} /\ pv = NoNode /\ nx = NoNode /\ ~toProxy)
       /\ ~(IsCode(ir, id) /\ (\E e \in In(ir, B(id)) : e.ty # "Fallthrough") /\ ~nxCode /\ ~toProxy)
 
-Remove(ir, id, toProxy) ==
+RemoveBlk(ir, id, toProxy) ==
   LET pv == Prev(ir, id)
       nx == NextB(ir, id)
       can == CanRemove(ir, id, toProxy)
@@ -255,7 +255,7 @@ CleanupLoop(ir, blocks, i) ==
        IN  IF Joinable(ir, pred, blk)
            THEN CleanupLoop(Join(ir, pred, blk), SubSeq(blocks, 1, i - 1) \o SubSeq(blocks, i + 1, Len(blocks)), 2)
            ELSE IF Size(ir, blk) = 0
-           THEN LET r == Remove(ir, blk, FALSE)
+           THEN LET r == RemoveBlk(ir, blk, FALSE)
                 IN  IF r.removed
                     THEN CleanupLoop(r.ir, SubSeq(blocks, 1, i - 1) \o SubSeq(blocks, i + 1, Len(blocks)), 2)
                     ELSE CleanupLoop(r.ir, blocks, i + 1)
@@ -265,7 +265,7 @@ Cleanup(ir, blocks) ==
   LET r == CleanupLoop(ir, blocks, 2)
       first == r.blocks[1]
       r2 == IF Size(r.ir, first) = 0
-            THEN LET q == Remove(r.ir, first, FALSE)
+            THEN LET q == RemoveBlk(r.ir, first, FALSE)
                  IN  IF q.removed THEN [ir |-> q.ir, blocks |-> Tail(r.blocks)] ELSE [ir |-> q.ir, blocks |-> r.blocks]
             ELSE r
   IN  [ir |-> r2.ir, last |-> IF r2.blocks = <<>> THEN 0 ELSE r2.blocks[Len(r2.blocks)],
@@ -279,13 +279,13 @@ Delete(ir, id, k, len, toProxy) ==
   ELSE IF len # Size(ir, id)
   THEN LET s1 == Split(ir, id, k)
            s2 == Split(s1.ir, s1.new, len)
-           r == Remove(s2.ir, s1.new, FALSE)
+           r == RemoveBlk(s2.ir, s1.new, FALSE)
        IN  Cleanup(r.ir, <<id, s2.new>>)
   ELSE LET pv == Prev(ir, id)
            nx == NextB(ir, id)
-           r == Remove(ir, id, toProxy)
+           r == RemoveBlk(ir, id, toProxy)
            ir1 == IF r.removed /\ pv # NoNode /\ nx # NoNode /\ Size(r.ir, pv[2]) = 0 /\ ~toProxy
-                  THEN Remove(r.ir, pv[2], FALSE).ir ELSE r.ir
+                  THEN RemoveBlk(r.ir, pv[2], FALSE).ir ELSE r.ir
        IN  [ir |-> ir1, last |-> 0, assertOk |-> TRUE]
 
 (***************************************************************************)
@@ -318,7 +318,7 @@ Insert(ir, id, k, replLen, code0) ==
       s1 == Split(ir, id, k)
       afterRepl == IF replLen = 0 THEN [ir |-> s1.ir, endb |-> s1.new]
                    ELSE LET s2 == Split(s1.ir, s1.new, replLen)
-                            r == Remove(s2.ir, s1.new, FALSE)
+                            r == RemoveBlk(s2.ir, s1.new, FALSE)
                         IN  [ir |-> r.ir, endb |-> s2.new]
       pc == PatchCallReturns(afterRepl.ir, code1)
       code == [code1 EXCEPT !.cfg = code1.cfg \cup pc.add]
